@@ -78,7 +78,7 @@ const SST: [&str; 3] = ["alpha", "b\u{e9}ta", "\u{20ac}uro"];
 
 fn kinds() -> Vec<Kind> {
     let mut v = vec![];
-    let nums = [1.5f64, 0.0, 1.0, -1.0, 0.01, 1234.56, 536870911.0, -536870912.0, 536870912.0, 1e100, 5e-324, -7.25, 3.0e9, 123456.78, -0.5];
+    let nums = [1.5f64, 0.0, 1.0, -1.0, 0.01, 1234.56, 536870911.0, -536870912.0, 536870912.0, 1e100, 5e-324, -7.25, 3.0e9, 123456.78, -0.5, 0.35, 1.13];
     for n in nums {
         // Excel prefers RK whenever the value fits: RK forms first, NUMBER last
         for (name, w) in rk_encodings(n) { v.push(Kind::Num(n, name, w)); }
@@ -88,7 +88,9 @@ fn kinds() -> Vec<Kind> {
     v.push(Kind::Label("lab", false)); v.push(Kind::Label("lab", true)); v.push(Kind::Label("l\u{e4}b\u{20ac}", true));
     v.push(Kind::Bool(true)); v.push(Kind::Bool(false));
     for e in [0x00u8, 0x07, 0x0F, 0x17, 0x1D, 0x24, 0x2A, 0x2B] { v.push(Kind::Err(e)); }
-    v.push(Kind::Fmla(FRes::Num(2.5))); v.push(Kind::Fmla(FRes::Str("res".into(), false))); v.push(Kind::Fmla(FRes::Str("r\u{e9}s".into(), true)));
+    v.push(Kind::Fmla(FRes::Num(2.5)));
+    // cached numbers whose IEEE bytes have 0xFF in exactly one of the two top bytes (the other marks a non-numeric result)
+    for x in [1.9375f64, 1.95, 130000.0, -1e308, f64::from_bits(0x00FF_0000_0000_0000)] { v.push(Kind::Fmla(FRes::Num(x))); } v.push(Kind::Fmla(FRes::Str("res".into(), false))); v.push(Kind::Fmla(FRes::Str("r\u{e9}s".into(), true)));
     // the anchor cell of a shared formula / array formula / data table: another record between FORMULA and STRING
     for t in [0x04BCu16, 0x0221, 0x0236] { v.push(Kind::Fmla(FRes::StrVia("via".into(), false, t))); }
     v.push(Kind::Fmla(FRes::Bool(true))); v.push(Kind::Fmla(FRes::Err(0x07))); v.push(Kind::Fmla(FRes::Err(0x2A))); v.push(Kind::Fmla(FRes::EmptyStr));
